@@ -340,6 +340,58 @@ func controlBattery() (*program, []call) {
         }
     }
     return 0`)
+	// sibling loops that share a label (only nested loops must differ), each
+	// with deep jumps: C labels have function scope
+	// (fixes/C04-duplicate-jump-label.patch)
+	mk("siblings", `
+    while.w i < 4 {
+        i ~mod+= 1
+        j = 0
+        while.v j < 4 {
+            j ~mod+= 1
+            if j == args.a {
+                continue.w
+            }
+            if (i ~mod+ j) == args.b {
+                break.w
+            }
+            acc = (acc ~mod* 3) ~mod+ j
+        }.v
+        acc ~mod+= 100
+    }.w
+    i = 0
+    while.w i < 3 {
+        i ~mod+= 1
+        j = 0
+        while.v j < 3 {
+            j ~mod+= 1
+            if (j ~mod+ 1) == args.a {
+                break.w
+            }
+            if (i ~mod* j) == args.b {
+                continue.w
+            }
+            acc = (acc ~mod* 5) ~mod+ i
+        }.v
+        acc ~mod+= 1000
+    }.w
+    k = 0
+    while k < 2 {
+        k ~mod+= 1
+        j = 0
+        while.v j < 3 {
+            j ~mod+= 1
+            while true {
+                if j == args.b {
+                    break.v
+                }
+                acc ~mod+= 7
+                break
+            }
+        }.v
+    }
+    this.acc ~mod+= acc
+    return acc`)
 	var hist []call
 	for a := int64(0); a < 8; a++ {
 		for b := int64(0); b < 8; b++ {
